@@ -49,6 +49,29 @@ Theorem wrap_no_trailing_ws : forall s w ind ls, wrap_lines s w ind = Some ls ->
 Proof. exact wrap_lines_no_trailing_ws. Qed.
 Print Assumptions wrap_no_trailing_ws.
 
+(* only long texts are broken: a text that fits into the width comes back as one line, only right-stripped *)
+Theorem wrap_fits_unbroken : forall (s : str) w (ind : str), length s <= w ->
+  wrap_lines s w ind = Some (match s with [] => [] | _ => [rstrip s] end).
+Proof. exact wrap_lines_fits. Qed.
+Print Assumptions wrap_fits_unbroken.
+
+Theorem wrap_broken_only_if_long : forall (s : str) w (ind : str) ls,
+  wrap_lines s w ind = Some ls -> 1 < length ls -> w < length s.
+Proof. exact wrap_lines_broken_only_if_long. Qed.
+Print Assumptions wrap_broken_only_if_long.
+
+(* every break is forced (unfolding principle of the loop): whenever the output has a second line, the first
+   one ends at a break position b such that the pending text is longer than the width and every whitespace
+   character after b lies beyond the width -- the line could not have been made longer -- and the remaining
+   lines are the lines of indent ++ (text after the break character), so the same holds for each later line *)
+Theorem wrap_break_forced : forall f (s : str) w (ind : str) l l2 rest,
+  iter_lines (S f) s w ind = Some (l :: l2 :: rest) ->
+  exists b, l = firstn b s /\ w < length s /\
+    iter_lines f (ind ++ skipn (S b) s) w ind = Some (l2 :: rest) /\
+    (forall q c, nth_error s q = Some c -> is_space c = true -> b < q -> w < q).
+Proof. exact iter_lines_break_forced. Qed.
+Print Assumptions wrap_break_forced.
+
 (* newline$ emits exactly wrap(buffer) and a line end, and clears the buffer *)
 Theorem newline_spec : forall buffer lines w, wrap (concat buffer) 79 (s2l "  ") = Ok w ->
   newline buffer lines = Ok ([], lines ++ [w; [c_nl]]).
@@ -60,6 +83,9 @@ Example wrap_example :
   wrap_lines (s2l "01234 6789 12345") 9 (s2l "  ") = Some [s2l "01234"; s2l "  6789"; s2l "  12345"]
   /\ forallb is_space (s2l "  ") = true.
 Proof. vm_compute. auto. Qed.
+Example wrap_fits_example :
+  wrap_lines (s2l "ab c  ") 9 (s2l "  ") = Some [s2l "ab c"] /\ length (s2l "ab c  ") <= 9.
+Proof. vm_compute. split; [reflexivity|repeat constructor]. Qed.
 Example wrap_long_word_example :
   wrap_lines (s2l "aa bb c") 3 (s2l "  ") = Some [s2l "aa bb"; s2l "  c"].
 Proof. vm_compute. auto. Qed.
